@@ -149,7 +149,8 @@ type ctx struct {
 	// kept: the last few messages built or parsed, with their serialisation at that time. A message
 	// must not change because OTHER messages are built, serialised or parsed afterwards (shared
 	// buffers, cached encoders): re-serialised before every new message.
-	kept []keptMsg
+	kept       []keptMsg
+	lastParsed *fbb.Message // the message value of the previous parse (see the reuse in check)
 }
 
 type keptMsg struct {
@@ -477,12 +478,21 @@ func checkAPI(c *ctx, r *rand.Rand, m *fbb.Message, md *model, kinds []string) {
 
 	// --- identity through every reader shape
 	parsedOK := 0
-	for _, kind := range kinds {
+	for ki, kind := range kinds {
 		p := new(fbb.Message)
+		if ki%2 == 1 && c.lastParsed != nil {
+			// every other parse goes into a Message value that already holds an earlier message (a receive loop that
+			// decodes one message after another into the same variable): what it held before is replaced, not kept
+			p = c.lastParsed
+			o.Count("parses_into_a_message_value_that_held_another_message", 1)
+		} else if ki%2 == 1 {
+			p = m // ... or into the message that was just composed (re-loaded from its own bytes)
+		}
 		if err := p.ReadFrom(mkReader(kind, b1, r)); err != nil {
 			c.violate("parse-own-output:"+kind+":"+errClass(err), "ReadFrom(%s reader) of the library's own output failed: %v", kind, err)
 			continue
 		}
+		c.lastParsed = p
 		o.Count("parses_"+kind, 1)
 		parsedOK++
 		if d := headerDiff(normHeader(p.Header), want); d != "" {
@@ -822,9 +832,18 @@ func fixedCases(c *ctx, r *rand.Rand) {
 	c.o.Sample = map[string]any{"kind": "fixed", "body_sizes_around_buffer": "0..70000", "attachment_shapes": len(shapes), "subjects": len(subjects)}
 }
 
+// zones: the process's local time zone is part of the environment; the instants a message's dates denote are not.
+var zones = []*time.Location{time.UTC, time.FixedZone("UTC+2", 2*3600), time.FixedZone("UTC-3:30", -(3*3600 + 1800)), time.FixedZone("UTC+13", 13*3600)}
+
 func run(cs vrt.Case) vrt.Obs {
 	var p params
 	vrt.Params(cs, &p)
+	if p.G == 0 {
+		// a worker runs one case at a time: the case's zone is set for the whole process and put back afterwards
+		old := time.Local
+		time.Local = zones[p.Idx%len(zones)]
+		defer func() { time.Local = old }()
+	}
 	if p.Kind != "fixed" && p.Idx%4 == 3 && p.G == 0 {
 		// every fourth batch is worked on by four goroutines at once (a program that builds, serialises and
 		// parses messages from several sessions simultaneously): each goroutine checks its own messages
